@@ -34,7 +34,8 @@ class Next:
 
 
 def r1_stable(res, facts):
-    r = res.rule('C16-R1', 'NodeSorter::sort orders with std::stable_sort (equal keys keep document order); the comparator object is the NodeSortKeyCompare of this sorter', floor=1)
+    r = res.rule('C16-R1', 'NodeSorter::sort: where it orders with a standard algorithm, that is std::stable_sort (equal keys keep document order; std::sort is not stable) and the comparator object '
+                 'is the NodeSortKeyCompare of this sorter; a hand-written routine is left to C16-R7', floor=1)
     found = False
     for a in facts.asts('NodeSorter::sort'):
         names = [c.get('n') for c in calls(a['body'])]
@@ -50,7 +51,9 @@ def r1_stable(res, facts):
             r.violation('NodeSorter::sort algorithm', 'std::sort is not stable: nodes with equal keys may change order', common.file_line(a))
             found = True
     if not found:
-        r.violation('NodeSorter::sort algorithm', 'no call to std::stable_sort found', None)
+        # a sorting routine of the library's own: whether it is stable is not visible in a call name.  C16-R7 interprets it (lists of 3, 4 and 40 / 70 nodes with ties) and
+        # says so if it cannot; nothing is claimed here
+        r.ok('NodeSorter::sort: no standard sorting call', 'a hand-written routine: its stability is decided by C16-R7, by interpretation')
     return r
 
 
